@@ -116,7 +116,7 @@ def gen_cases(rng, tier):
     limit = int(mlim.group(1)) if mlim else 1000
     for ver in ((3, 8), (3, 12)):
         lay = pm.code_layout(ver)
-        for levels in sorted({max(1, (limit - 6) // 2), max(1, (limit - 2) // 2), limit // 2 + 2, limit}):
+        for levels in sorted({max(1, limit - 12), max(1, limit - 2), limit + 2, 2 * limit}):
             inner = b"N"
             for _ in range(levels):                       # built as bytes: the encoder of lib/pymarshal.py is recursive
                 k, body = 0, b"c"
@@ -124,7 +124,7 @@ def gen_cases(rng, tier):
                     if f == "i":
                         body += b"\0\0\0\0"
                     else:
-                        body += b"s\0\0\0\0" if k == 0 else (b")\x01" + inner if k == 1 else b")\x00")
+                        body += b"s\0\0\0\0" if k == 0 else (inner if k == 1 else b")\x00")      # co_consts is the next code object itself: one level of depth each
                         k += 1
                 inner = body
             add("pyc", pm.header(ver) + inner, None, ["nested-code", "levels%d" % levels, "limit%d" % limit])
